@@ -47,7 +47,7 @@ LEVEL_NOTE = (
     "normalising both sides, and fsutil.snapshot (os.walk without following links)."
 )
 CLASSES = [
-    "nested_in_job", "nested_in_subdir", "symlinked_job", "relative_path", "search_false", "legacy_rc_file_inside_project",
+    "nested_in_job", "nested_in_subdir", "symlinked_job", "relative_path", "search_false", "legacy_rc_file_inside_project", "unparseable_file_named_signac_rc",
     "nonexistent", "depth>=4", "init_existing", "init_fresh", "two_ids_on_path", "jobdir_is_project",
 ]
 ASSUMPTIONS = [
@@ -188,7 +188,8 @@ def build_model(case):
                 # (a left-over signac 1.x project file in a plain directory *inside* a current project: the
                 # enclosing project is still the answer for every path at or below it)
                 m.add(path, kind="dir", node_depth=depth, njobs_above=njobs_above, nproj_above=nproj_above,
-                      legacy=bool(node.get("legacy")) and nproj_above >= 1)
+                      legacy=node.get("legacy") is True and nproj_above >= 1,
+                      junk=node.get("legacy") == "junk")
                 plain(node.get("ch") or [], path, depth + 1, set(), njobs_above, nproj_above)
             else:
                 cfg = int(node.get("cfg", 0)) % len(CONFIGS)
@@ -309,6 +310,9 @@ def materialise(m, root):
                 os.mkdir(P(path))
             if rec.get("legacy"):
                 _write(os.path.join(P(path), "signac.rc"), b"project = old\nschema_version = 1\n")
+            elif rec.get("junk"):
+                # a file that merely has the name of a signac 1.x project file (notes, another tool's rc file)
+                _write(os.path.join(P(path), "signac.rc"), b"notes on the signac runs\n[[[ not a configuration\nx = = 1\n")
         if rec["proj"]:
             text = CONFIGS[rec["cfg"]]
             if text is None:
@@ -551,6 +555,8 @@ def classify(m):
             cl.add("depth>=4")
         if rec.get("legacy"):
             cl.add("legacy_rc_file_inside_project")
+        if rec.get("junk"):
+            cl.add("unparseable_file_named_signac_rc")
         if rec["kind"] == "proj":
             cl.add("init_existing")
             if rec["nproj_above"] >= 1:
@@ -607,7 +613,7 @@ def _ws_children(d):
 
 @functools.lru_cache(maxsize=None)
 def _dir_node(d):
-    return st.fixed_dictionaries({"t": st.just("dir"), "n": names, "ch": _plain_children(d - 1), "legacy": st.sampled_from([False, False, False, True])})
+    return st.fixed_dictionaries({"t": st.just("dir"), "n": names, "ch": _plain_children(d - 1), "legacy": st.sampled_from([False, False, False, True, "junk"])})
 
 
 @functools.lru_cache(maxsize=None)
